@@ -87,7 +87,7 @@ pub fn check_source(src: &str, full: bool) -> (Vec<Bad>, u8) {
     let pl2 = match g!(prqlc::json::to_pl(&js), "json::to_pl") {
         Ok(p) => p,
         Err(e) => {
-            bad.push(Bad { key: "pl-json-does-not-read-back".into(), why: format!("{e} :: {}", js.chars().take(300).collect::<String>()) });
+            bad.push(Bad { key: if e.to_string().contains("recursion limit exceeded") { "json-nested-deeper-than-128-levels-does-not-read-back".into() } else { "pl-json-does-not-read-back".into() }, why: format!("{e} :: {}", js.chars().take(300).collect::<String>()) });
             return (bad, 1);
         }
     };
@@ -132,7 +132,7 @@ pub fn check_source(src: &str, full: bool) -> (Vec<Bad>, u8) {
     let rq2 = match g!(prqlc::json::to_rq(&jr), "json::to_rq") {
         Ok(r) => r,
         Err(e) => {
-            bad.push(Bad { key: "rq-json-does-not-read-back".into(), why: format!("{e} :: {}", jr.chars().take(300).collect::<String>()) });
+            bad.push(Bad { key: if e.to_string().contains("recursion limit exceeded") { "json-nested-deeper-than-128-levels-does-not-read-back".into() } else { "rq-json-does-not-read-back".into() }, why: format!("{e} :: {}", jr.chars().take(300).collect::<String>()) });
             return (bad, 2);
         }
     };
@@ -200,6 +200,40 @@ pub fn run(tier: Tier) -> i32 {
     let (progs, st2) = crate::relrun::enumerate(&[cfg]);
     for (p, ch, _) in &progs {
         sources.push((crate::model::pr_program(p), false, json!({"driver":"AP","choices": ch})));
+    }
+    // numbers: (a) float literals whose shortest spelling needs 16-17 digits — a strided walk through the doubles
+    // from 1.0, 1e-30.. and 1e30.., plus short spellings at the extremes; (b) arithmetic on pairs of boundary float
+    // literals (a compile-time fold must keep a representable value), directly and through a function default;
+    // (c) expression and pipeline depth (a JSON document nests several levels per operator)
+    {
+        let mut lits: Vec<String> = vec![];
+        for base in [1.0f64, 1e-30, 1e30, 0.1, 123456.789] {
+            let bits = base.to_bits();
+            for k in 0..tier.pick(150u64, 1500u64) {
+                lits.push(format!("{:?}", f64::from_bits(bits + k * 7919)));
+            }
+        }
+        lits.extend(["4.35e30", "2.5e-30", "1.7976931348623157e308", "5e-324", "2.2250738585072014e-308", "0.30000000000000004", "9007199254740993.0", "1e22", "1e23"].iter().map(|s| s.to_string()));
+        for l in &lits {
+            sources.push((format!("from t | select {{x = {l}}}"), false, json!({"driver":"float-literal"})));
+        }
+        let edge = ["1e308", "1.7976931348623157e308", "1e-308", "5e-324", "10.0", "0.1", "-1e308", "0.0", "3.0"];
+        for l in edge {
+            for r in edge {
+                for op in ["+", "-", "*", "/"] {
+                    sources.push((format!("from t | derive x = {l} {op} {r}"), false, json!({"driver":"float-fold"})));
+                }
+            }
+            sources.push((format!("let scale = x f:{l} -> x * f\nfrom t | derive y = (scale 1e200)"), false, json!({"driver":"float-fold"})));
+            sources.push((format!("let k = {l}\nfrom t | filter a > k * 10.0"), false, json!({"driver":"float-fold"})));
+        }
+        for n in [8usize, 16, 24, 30, 31, 32, 40, 64] {
+            sources.push((format!("from t | derive x = {}", vec!["a"; n].join(" + ")), false, json!({"driver":"depth"})));
+            sources.push((format!("from t | derive x = {}a{}", "(".repeat(n), ")".repeat(n)), false, json!({"driver":"depth"})));
+            sources.push((format!("from t | derive x = {}a", "-".repeat(n).replace("--", "- -")), false, json!({"driver":"depth"})));
+            sources.push((format!("from t{}", " | filter a > 1".repeat(n)), false, json!({"driver":"depth"})));
+            sources.push((format!("from t | select {{x = {}a{}}}", "{y = ".repeat(n.min(16)), "}".repeat(n.min(16))), false, json!({"driver":"depth"})));
+        }
     }
     let mut seen = std::collections::HashSet::new();
     sources.retain(|(s, _, _)| seen.insert(s.clone()));
